@@ -553,7 +553,7 @@ pub fn run_spec(spec: &Spec, envs: &Envs, scratch_tag: &str, stop_at_first: bool
         }
     };
     if spec.tier == Tier::Exec {
-        if let Err(e) = fs::create_dir_all(&dir)
+        if let Err(e) = fs::create_dir_all(dir.join("tmp"))
             .and_then(|()| fs::write(dir.join(&spec.file_name), &spec.source))
             .and_then(|()| furnish(&dir))
         {
@@ -563,6 +563,12 @@ pub fn run_spec(spec: &Spec, envs: &Envs, scratch_tag: &str, stop_at_first: bool
         }
     } else {
         colour_override(spec.colour);
+        // the group's own temporary directory (durable state between its launches)
+        let tmp = dir.join("tmp");
+        if fs::create_dir_all(&tmp).is_ok() {
+            // SAFETY: the worker's main thread is the only thread at this point.
+            unsafe { std::env::set_var("TMPDIR", &tmp) };
+        }
         if spec.mode == "main" && sim_inproc::real_main_available() {
             // the real `run` reads the file itself; a relative path is resolved against the cwd
             if let Err(e) = fs::create_dir_all(&dir)
@@ -649,8 +655,10 @@ pub fn run_spec(spec: &Spec, envs: &Envs, scratch_tag: &str, stop_at_first: bool
 
     if spec.tier == Tier::Exec {
         let _ = fs::remove_dir_all(&dir);
-    } else if spec.mode == "main" && sim_inproc::real_main_available() {
-        let _ = std::env::set_current_dir(&envs.work);
+    } else {
+        if spec.mode == "main" && sim_inproc::real_main_available() {
+            let _ = std::env::set_current_dir(&envs.work);
+        }
         let _ = fs::remove_dir_all(&dir);
     }
     if out.status == "ok" {
